@@ -134,4 +134,15 @@ PROPS = {
         "assumptions": ["exact derivatives = 4th-order central differences (h = 1e-3) in long double of the same function re-expressed on the documented matrix groups",
                         "verdict covers only the executions sampled"],
     },
+    "C07": {
+        "units": [{"name": "c07", "src": "harness/c07.cpp", "flavor": "asan", "shards": {"quick": 12, "thorough": 16}}],
+        "rule": "cases = (m, a, b) per Manifold model: 10 Lie group types incl. float and a Bundle, fixed/dynamic vectors, double/float, "
+                "std::vector<M> (M static/dynamic/nested/variant, sizes 0..8), std::variant with 4 alternatives, SubManifold over SO3/SE3/Bundle/VectorXd/"
+                "Vector3d with EVERY subset of fixed dims for dof <= 6 (random above), unsorted and empty lists, AnyManifold over 4 payload types; "
+                "tangents inside the injectivity radius (rotation <= pi-1e-3); distinct = distinct (m,a); non-trivial = a != 0",
+        "floors": {"min_evaluations": {"quick": 100000, "thorough": 2000000},
+                   "cells": [r"SE3d\.sub\.cast_keeps_origin", r"vector<vector<SE2d>>\.rplus_elementwise\|size=0", r"variant<.*>\.acts_as_alternative\|alt=3",
+                             r"SubManifold<SE3d>\.any\.copy_independent", r"SO3d\.sub\.rplus_moves_free_only\|fixed=3/3"]},
+        "assumptions": ["group leaves are compared through the documented matrix (q and -q are the same element)", "verdict covers only the executions sampled"],
+    },
 }
